@@ -64,6 +64,8 @@ THEOREMS = {
     'C06_aux_equiv_in_place': "composition with C20's specification of the .aux reader: HYPOTHESES closedDepth (every \\@input file exists, nesting depth d <= fuel) and no fatal problem; then make_bibliography is format_from_files on the first \\bibdata names + suffix, the first \\bibstyle (or the override) and the citations of Spec.events = the \\citation keys in reading order with every \\@input file unfolded IN PLACE, written to splitext(aux)[0] + .bbl, the reader's reports riding along",
     'C06_aux_equiv_in_place_nonvacuous': 'non-vacuity: main.aux (alpha, \\@input ch1, omega), ch1.aux (beta, \\@input ch1a, delta), ch1a.aux (gamma) is closed at depth 3, not fatal, and denotes alpha beta gamma delta omega, style unsrt, data refs',
     'C06_model_literals': "the literals Model/Engine.lean hard-codes equal the ones regenerated from /repo on this run (Gen/EngineConsts.lean): default reader suffix .bib, style + extsep + 'bst', the .bib names, Interpreter's command_* method names = BstParser.COMMANDS lower-cased, the command line's default min_crossrefs / style language = the API's (finite facts by decide; two list identities)",
+    'C06_style_file_name': "the style file name style + extsep + 'bst': different style names designate different files (no part of the name is dropped); for a style name whose last component is not only dots os.path.splitext of the file name gives back the whole style name (house.unsrt.bst belongs to house.unsrt, not to house); [model wiring] the model's format_from_files opens this name and no other for the style (no text there = cannotOpen of this name) - that the CODE does so: correspondence check + oracle clauses style / override_style on dotted style names",
+    'C06_style_file_name_nonvacuous': 'non-vacuity: /D/house.unsrt -> /D/house.unsrt.bst, /D/house -> /D/house.bst, splitext(/D/house.unsrt.bst) = (/D/house.unsrt, .bst)',
     'C06_item_starts_with_bibitem_alpha_nonvacuous': 'non-vacuity: a style with that output.bibitem and labels computed in an earlier ITERATE pass produces \\bibitem[Z]{a} \\bibitem[Y]{b}',
 }
 RULE = ('databases drawn from a pool of realistic entries (all standard types, cross-references, braces, special characters, a group of entries '
@@ -75,6 +77,10 @@ RULE = ('databases drawn from a pool of realistic entries (all standard types, c
         'command line, format_from_files / _file / _string / _strings, the default citations argument, Interpreter.run with an unknown '
         'command), every combination of style= / bib_format= override (YAML copy beside a decoy or absent .bib file), output_encoding / '
         'bib_encoding; .aux files that \\@input other .aux files (depth 1-2, citations in front of, inside and behind the \\@input line), '
+        'style NAMES with a dot in the last path component (house.unsrt, IEEEtran.v2, a.b.c, house.bst, x., a dotted directory, a hidden '
+        'name; random stem.suffix names) with and without a second style file named after the part in front of the last dot that holds '
+        'ANOTHER style, requested through \\bibstyle, style= / --style and format_from_files / _file / _string(s), each compared with the '
+        'same style file under a dot-free name (clauses style / override_style); '
         '.aux files with a second or without \\bibstyle / \\bibdata, fifteen names of the .aux file (several dots, hidden files, dotted '
         'directories, no extension) through make_bibliography and the command line with the written file located by listing the '
         "directory; function level: os.path.splitext and the command line's .aux name on every string over {a . /} up to length 5 "
@@ -161,6 +167,27 @@ def style_text(name):
         with open(os.path.join(compat.REPO, 'tests', 'data', name + '.bst'), encoding='utf-8') as f:
             _STYLE_TEXT[name] = f.read()
     return _STYLE_TEXT[name]
+
+
+def style_files(case):
+    """family dotted-style: the style files of the case beyond <style>.bst / <style_override>.bst as a dict file stem -> the style
+    whose text it holds.  case['style_files'] = [[name, base], ...]: the file <name>.bst holds the text of style <base> (a shipped or
+    miniature style).  The style NAME handed to the engine may contain dots (house.unsrt -> house.unsrt.bst); a second file named
+    after the part in front of the last dot (house.bst) holds ANOTHER style, so that a run that looks the style up under another
+    name than <style> + '.bst' produces the wrong bibliography instead of an error."""
+    return {n: b for n, b in (case.get('style_files') or [])}
+
+
+def base_style(case, name):
+    """the shipped / miniature style whose text the style file <name>.bst of the case holds"""
+    return style_files(case).get(name, name)
+
+
+def case_style_text(case, name):
+    return style_text(base_style(case, name))
+
+
+REF_STYLE = 'refstyle'     # family dotted-style: the text of the effective style once more, under a name without any dot
 
 
 _TMP = {}
@@ -335,8 +362,10 @@ def yaml_text(case):
 def setup_files(case, d):
     """Write style, bib (or yaml copy + decoy bib) and aux files."""
     enc = case.get('enc') or 'utf-8'
-    for st in set([case['style']] + ([case['style_override']] if case.get('style_override') else [])):
-        _write(os.path.join(d, st + '.bst'), style_text(st))
+    for st in sorted(set([case['style']] + ([case['style_override']] if case.get('style_override') else []) + list(style_files(case)))):
+        _write(os.path.join(d, st + '.bst'), case_style_text(case, st))
+    if case.get('style_ref'):
+        _write(os.path.join(d, REF_STYLE + '.bst'), case_style_text(case, eff_style(case)))
     texts = bib_texts(case)
     if case.get('yaml'):
         # the bib_format override must be observable: beside refs.yaml there is either no refs.bib at all or one with other titles
@@ -433,13 +462,13 @@ def _files_kw(case, yaml):
     return kw
 
 
-def run_files(case, d, keys=None, noise=None, yaml=None, single=False, how='files'):
+def run_files(case, d, keys=None, noise=None, yaml=None, single=False, how='files', style_name=None):
     """the explicit call.  how = files | file | string | default (no citations argument) | bytes (written to a file as make_bibliography does)"""
     from pybtex.bibtex import BibTeXEngine
     eng = BibTeXEngine()
     yaml = bool(case.get('yaml')) if yaml is None else yaml
     enc = case.get('enc') or 'utf-8'
-    style = os.path.join(d, eff_style(case))
+    style = os.path.join(d, style_name or eff_style(case))
     kw = _files_kw(case, yaml)
     if keys is not None or noise is not None or single:
         _write(os.path.join(d, 'variant.bib'), bib_text(case, keys, noise), enc)
@@ -555,6 +584,11 @@ def _impl(case):
             out[case['entry']] = run_files(case, d, how=case['entry'])
         if case.get('inject'):
             out['inject'] = run_inject(case, d)
+        if case.get('style_ref'):
+            # the same style file under a name without a dot
+            out['style_ref'] = run_files(case, d, style_name=REF_STYLE)
+        for how in case.get('entries') or []:
+            out[how] = run_files(case, d, how=how)
         # metamorphic variants (implementation only)
         if case.get('variant_keys') is not None or case.get('variant_noise') is not None:
             out['variant'] = run_files(case, d, keys=case.get('variant_keys'), noise=case.get('variant_noise'))
@@ -580,9 +614,12 @@ def to_request(case):
     if case['op'] != 'makebib':
         return _fn_request(case)
     d = '/D'
-    texts = [[d + '/' + case['style'] + '.bst', style_text(case['style'])]]
+    texts = [[d + '/' + case['style'] + '.bst', case_style_text(case, case['style'])]]
     if case.get('style_override'):
-        texts.append([d + '/' + case['style_override'] + '.bst', style_text(case['style_override'])])
+        texts.append([d + '/' + case['style_override'] + '.bst', case_style_text(case, case['style_override'])])
+    for st in sorted(style_files(case)):
+        if st not in (case['style'], case.get('style_override')):
+            texts.append([d + '/' + st + '.bst', case_style_text(case, st)])
     bt = bib_texts(case)
     if case.get('yaml'):
         if case.get('decoy', True):
@@ -864,7 +901,7 @@ def oracle(case, io, reply):
         return _fn_oracle(case, io, reply)
     fails = []
     a, f = io['aux'], io['files']
-    for name in ('aux', 'files', 'variant', 'bibtex_db', 'single', 'file', 'string', 'default', 'inject'):
+    for name in ('aux', 'files', 'variant', 'bibtex_db', 'single', 'file', 'string', 'default', 'inject', 'style_ref'):
         r = io.get(name)
         if r and 'error' in r and r['error'][0] == 'INTERNAL':
             fails.append('no_internal: %s run raised %s' % (name, r.get('detail')))
@@ -875,6 +912,29 @@ def oracle(case, io, reply):
         if r is not None and (r.get('error'), r.get('bbl')) != (f.get('error'), f.get('bbl')):
             fails.append('entry_points: %s gives %r, format_from_files on the same database %r' % (
                 what, (r.get('bbl') or str(r.get('error')))[:200], (f.get('bbl') or str(f.get('error')))[:200]))
+    ref = io.get('style_ref')
+    if ref is not None and 'error' not in ref:
+        # "the output depends only on the cited entries and the style": the style is the .bst file the name <style> + '.bst'
+        # designates - the same file under a name without a dot (reference run, explicit call) gives the same output; "an
+        # explicitly requested style overrides what the .aux file says": the .aux run with style= is the run of THAT style
+        nm = eff_style(case)
+        runs = [('format_from_files(style=%r)' % nm, f)]
+        runs += [('%s(style=%r)' % (w, nm), io[n]) for n, w in (('file', 'format_from_file'), ('string', 'format_from_string(s)'),
+                                                               ('default', 'format_from_files [default citations]')) if io.get(n) is not None]
+        if case.get('style_override'):
+            runs.append(('make_bibliography(.aux with \\bibstyle{%s}, style=%r)' % (case['style'], nm), a))
+            tag = 'override_style'
+        else:
+            runs.append(('make_bibliography(.aux with \\bibstyle{%s})' % nm, a))
+            tag = 'style'
+        if io.get('cli') is not None and 'error' not in io['cli']:
+            runs.append(('the command line%s' % (' --style %s' % nm if case.get('style_override') else ''), io['cli']))
+        for what, r in runs:
+            if r.get('error') is not None or r.get('bbl') != ref['bbl']:
+                fails.append('%s: %s, whose style file is %s.bst (a copy of %s.bst), gives %r; the same style file under the name %s.bst gives %r'
+                             % (tag if r is a or r is io.get('cli') else 'style', what, nm, base_style(case, nm),
+                                (str(r['error']) if r.get('error') else 'items %r: %s' % (bibitem_keys(r['bbl']), r['bbl'][:60])),
+                                REF_STYLE, 'items %r: %s' % (bibitem_keys(ref['bbl']), ref['bbl'][:60])))
     if case.get('aux_extra') in ('no_style', 'no_data'):
         # no equivalent explicit call exists: the run must stop with the .aux reader's error
         if a.get('error') != ['AuxDataError']:
@@ -908,7 +968,7 @@ def oracle(case, io, reply):
         elif c['bbl'] != a['bbl']:
             fails.append('aux_equiv/cli: the command line run differs from make_bibliography: %r vs %r' % (c['bbl'][:200], a['bbl'][:200]))
     keys = bibitem_keys(f['bbl'])
-    emits_items = eff_style(case) not in ('mini_noread', 'mini_raise', 'mini_raise_syntax', 'mini_redeclare')
+    emits_items = base_style(case, eff_style(case)) not in ('mini_noread', 'mini_raise', 'mini_raise_syntax', 'mini_redeclare')
     if emits_items:
         low = [k.lower() for k in keys]
         if len(set(low)) != len(low):
@@ -919,7 +979,7 @@ def oracle(case, io, reply):
         else:
             sorts = (reply.get('spec') or {}).get('sorts')
             if not sorts:
-                if eff_style(case) in ('unsrt', 'unsrt_mixed', 'mini_keys') and [k.lower() for k in keys] != [k.lower() for k in io['resolved']]:
+                if base_style(case, eff_style(case)) in ('unsrt', 'unsrt_mixed', 'mini_keys') and [k.lower() for k in keys] != [k.lower() for k in io['resolved']]:
                     fails.append('citation_order: %s emitted %r, citation order is %r' % (eff_style(case), keys, io['resolved']))
             else:
                 want = expected_order(io['resolved'], sorts)
@@ -1207,6 +1267,74 @@ AUX_NAMES = [  # (name of the top .aux file, what the command line is given) - t
     ('noext', None), ('doc.tex', None), ('sub.d/noext', None), ('.aux', None), ('t.aux.aux', None)]
 
 
+# family dotted-style: style NAMES with a dot in the last path component (the style file is <name>.bst, whatever the name looks like),
+# beside controls (dot in a directory only, hidden name).  Second column: the name a lookup that drops the text behind the last
+# dot would use instead (None: there is no such name).
+DOTTED_NAMES = [('house.unsrt', 'house'), ('IEEEtran.v2', 'IEEEtran'), ('acm.2019', 'acm'), ('a.b.c', 'a.b'), ('house.bst', 'house'),
+                ('x.', 'x'), ('sub.d/st.y', 'sub.d/st'), ('sub.d/sty', None), ('.hid', None)]
+# (style the dotted name holds, style the file named after the stem holds): one of the two sorts, the other does not
+DOTTED_PAIRS_QUICK = [('unsrt', 'plain'), ('mini_keys', 'mini_sorted'), ('plain', 'unsrt')]
+DOTTED_PAIRS_ALL = DOTTED_PAIRS_QUICK + [('alpha', 'unsrt'), ('mini_sorted', 'mini_keys'), ('unsrt', 'alpha')]
+# cited in the reverse of author order and of title order: a sorting style and a non-sorting one give different bibliographies
+DOTTED_DB = (['art1', 'tech1', 'knuth84', 'misc1'], ['knuth84', 'art1', 'tech1'])
+
+
+def dotted_case(name, stem, base, decoy_base, how, keys=None, cites=None, **kw):
+    """how = 'aux': \\bibstyle{name}; 'override': \\bibstyle{stem or plain} with style=name.  decoy_base None: no file named after
+    the stem.  Every case carries the reference run (the same style file as refstyle.bst)."""
+    files = [[name, base]]
+    if decoy_base is not None and stem is not None:
+        files.append([stem, decoy_base])
+    keys = DOTTED_DB[0] if keys is None else keys
+    cites = DOTTED_DB[1] if cites is None else cites
+    if how == 'aux':
+        return _base(keys, cites, name, family='dotted-style', style_files=files, style_ref=True, **kw)
+    other = stem if (decoy_base is not None and stem is not None) else ('plain' if base != 'plain' else 'unsrt')
+    return _base(keys, cites, other, family='dotted-style', style_files=files, style_ref=True, style_override=name, **kw)
+
+
+def dotted_cases(quick):
+    """deterministic part: every name x (with / without a second style file named after the stem) x (\\bibstyle / style= override),
+    through make_bibliography, the command line, format_from_files / _file / _string(s); the style pairs rotate over the names
+    (thorough tier: every pair for every name)"""
+    pairs = DOTTED_PAIRS_QUICK if quick else DOTTED_PAIRS_ALL
+    cases = []
+    for i, (name, stem) in enumerate(DOTTED_NAMES):
+        for j, (base, decoy) in enumerate(pairs):
+            if quick and name != 'house.unsrt' and j != i % len(pairs):
+                continue
+            for with_decoy in (True, False):
+                if with_decoy and stem is None:
+                    continue
+                db = decoy if with_decoy else None
+                cases.append(dotted_case(name, stem, base, db, 'aux', cli=True, entries=['file', 'string'],
+                                         view='aux' if with_decoy else 'string'))
+                cases.append(dotted_case(name, stem, base, db, 'override', cli=True, entries=['string'],
+                                         view='aux' if with_decoy else 'files'))
+        # the default citation list, two database strings
+        cases.append(dotted_case(name, stem, pairs[i % len(pairs)][0], pairs[i % len(pairs)][1], 'aux', cites=['*'],
+                                 entries=['default'] + (['string'] if i % 2 else []), **({'split': 2} if i % 2 else {})))
+    return cases
+
+
+def gen_dotted(rng, styles):
+    """a random case (gen_case) whose requested style - the \\bibstyle, or the style= override when there is one - gets a random name
+    with a dot in its last component; with probability 0.6 a second style file named after the part in front of the last dot
+    holds another style"""
+    case = gen_case(rng, styles)
+    stem = rng.choice(['house', 'my', 'IEEEtran', 'a', 'x.y', 'sub.d/s', 'v1', 'sub.d/x.y', 'plain', 'unsrt'])
+    name = stem + '.' + rng.choice(['unsrt', 'v2', '2019', 'bst', '', 'b.c', 'aux', 'bbl', 'plain', 'bst.bst', 'x y'])
+    which = 'style_override' if case.get('style_override') else 'style'
+    base = case[which]
+    files = [[name, base]]
+    short = os.path.splitext(name)[0]
+    if rng.random() < 0.6 and short != name and short.rsplit('/', 1)[-1] not in styles + [REF_STYLE]:
+        files.append([short, rng.choice([s for s in styles if s != base])])
+    case[which] = name
+    case.update({'family': 'dotted-style', 'style_files': files, 'style_ref': True})
+    return case
+
+
 def fn_cases(rng, quick):
     """function-level families: os.path.splitext / the command line's .aux name, the output side of format_from_files, PybtexCommandLine.run"""
     import itertools
@@ -1291,6 +1419,8 @@ def gen_cases(tier, rng, info):
             cases.append(_base(['knuth84', 'art1'], ['art1', 'knuth84'], st, family='aux-errors', aux_extra=extra, cli=extra.startswith('dup')))
     mini = mini_cases(rng, 25 if quick else 300)
     cases += mini
+    # style names with a dot: the style file of NAME is NAME.bst
+    cases += dotted_cases(quick)
     info['exhaustive'] = False
     rnd = []
     for _ in range(30 if quick else 400):
@@ -1299,6 +1429,8 @@ def gen_cases(tier, rng, info):
         rnd.append(gen_case(rng, styles))
     for _ in range(24 if quick else 300):
         rnd.append(gen_nested(rng, ['unsrt', 'plain', 'mini_keys'] if quick else ['unsrt', 'plain', 'alpha', 'mini_keys', 'mini_sorted']))
+    for _ in range(12 if quick else 400):
+        rnd.append(gen_dotted(rng, styles))
     if not quick:
         # the large styles shipped in tests/data (two or three SORTs, REVERSE passes): random databases, ties and label collisions
         # (a run costs ten times a standard style's: spread evenly over the stream so that the worker pool stays balanced)
@@ -1318,7 +1450,15 @@ def gen_cases(tier, rng, info):
     _prefetch(cases[n_fn:])
     n_sys = len(cases) - len(rnd)
     info['scope'] = '%d systematic cases (pairs x citation lists x styles, tie / label-collision permutations, miniature styles, overrides, ' \
-                    'encodings) + seeded random databases from a pool of %d entries' % (n_sys, len(POOL))
+                    'encodings, %d dotted style names x stem file present / absent x \\bibstyle / style= override) + seeded random databases ' \
+                    'from a pool of %d entries' % (n_sys, len(DOTTED_NAMES), len(POOL))
+    try:
+        from tablegen import c06 as _tg
+        if _tg.FALLBACKS:
+            # a literal of format_from_files could not be read off the source: the model keeps the round-1 value (Gen.engineLiteralsFromSource = false)
+            info['table_fallbacks'] = ['%s: %s' % f for f in _tg.FALLBACKS]
+    except Exception:  # noqa
+        pass
     return cases
 
 
